@@ -306,6 +306,50 @@ func (m c12) Run(c *core.Ctx) {
 			m.note(c, p, r)
 		}
 	}
+	// "at most once", read literally: a module body that threw (or that is entered again through a callback while it is
+	// still running) has executed, and is executed again by the next import. The reference model follows the
+	// implementation here (only a completed body is cached), so the two shapes are counted by their log and listed as
+	// known findings rather than left to the comparison above.
+	for _, kc := range []struct {
+		name, src string
+		mods      map[string]string
+		marker    string
+	}{
+		{"body-threw", "global (L, G)\ntry {\n  import(\"flaky\")\n} catch e {\n  L(\"first\", e.Message)\n}\nG = 0\nm := import(\"flaky\")\nL(m.v)\nreturn import(\"flaky\").v",
+			map[string]string{"flaky": "global (L, G)\nL(\"body-flaky\")\nif G == 3 {\n  throw \"not yet\"\n}\nreturn {v: 7}\n"}, "body-flaky"},
+		{"re-entered-through-callback", "global (L, G)\nn := 0\nG = func() {\n  n++\n  if n < 3 {\n    return import(\"re\")\n  }\n  return undefined\n}\nimport(\"re\")\nreturn n",
+			map[string]string{"re": "global (L, G)\nL(\"body-re\")\nG()\nreturn {}\n"}, "body-re"},
+	} {
+		idx++
+		if idx%c.NBatch != c.Batch {
+			continue
+		}
+		kc := kc
+		if !c.Begin(func() string { return "literal at-most-once: " + kc.name + "\n" + kc.src }) {
+			continue
+		}
+		p := &Program{Src: kc.src, Modules: kc.mods, Tags: []string{"literal-once"}}
+		for _, opt := range []int{-1, 0} {
+			cr := compileProgram(p, opt)
+			if cr.err != nil || cr.panicv != "" {
+				c.Inconclusive("literal at-most-once case does not compile: " + kc.name)
+				continue
+			}
+			g := ugo.Map{"G": ugo.Int(3)}
+			out := runVM(cr.bc, nil, g, true)
+			n := strings.Count(out.Log, kc.marker)
+			c.Count("literal_once_runs")
+			switch {
+			case n == 1:
+				c.Count("literal_once_body_ran_once")
+			case n > 1:
+				c.Violation("C12|known-shape|body-executed-again|"+kc.name, fmt.Sprintf("the body of a source module ran %d times in one VM run (%s)", n, kc.name), c12wit{Program: p, Config: fmt.Sprintf("opt=%d", opt), Why: kc.name, Got: out.Log})
+			default:
+				c.Inconclusive("literal at-most-once case: body never ran: " + kc.name + " " + out.Kind + " " + out.ErrMsg)
+			}
+		}
+		c.Nontrivial("literal-once " + kc.name)
+	}
 	// static: cycles and unknown modules
 	for _, cc := range c12cycleCases() {
 		idx++
